@@ -37,6 +37,17 @@ impl MemcacheBinaryConnection {
                             request.header.body_length,
                             self.buffer.len()
                         );
+                        #[cfg(memcrs_verif)]
+                        crate::verif::note(
+                            "conn.oversize",
+                            None,
+                            [
+                                self.verif_peer_port(),
+                                request.header.body_length as u64,
+                                self.buffer.len() as u64,
+                                0,
+                            ],
+                        );
                         let skip = (request.header.body_length) - (self.buffer.len() as u32);
                         if skip >= self.buffer.len() as u32 {
                             self.buffer.clear();
@@ -57,7 +68,20 @@ impl MemcacheBinaryConnection {
             //
             // On success, the number of bytes is returned. `0` indicates "end
             // of stream".
+            #[cfg(memcrs_verif)]
+            let verif_before = self.buffer.len();
             if 0 == self.stream.read_buf(&mut self.buffer).await? {
+                #[cfg(memcrs_verif)]
+                crate::verif::note(
+                    "conn.read",
+                    None,
+                    [
+                        self.verif_peer_port(),
+                        0,
+                        verif_before as u64,
+                        self.buffer.capacity() as u64,
+                    ],
+                );
                 // The remote closed the connection. For this to be a clean
                 // shutdown, there should be no data in the read buffer. If
                 // there is, this means that the peer closed the socket while
@@ -71,7 +95,23 @@ impl MemcacheBinaryConnection {
                     ));
                 }
             }
+            #[cfg(memcrs_verif)]
+            crate::verif::note(
+                "conn.read",
+                None,
+                [
+                    self.verif_peer_port(),
+                    (self.buffer.len() - verif_before) as u64,
+                    verif_before as u64,
+                    self.buffer.capacity() as u64,
+                ],
+            );
         }
+    }
+
+    #[cfg(memcrs_verif)]
+    fn verif_peer_port(&self) -> u64 {
+        self.stream.peer_addr().map(|a| a.port() as u64).unwrap_or(0)
     }
 
     pub async fn skip_bytes(&mut self, bytes: u32) -> io::Result<()> {
